@@ -5,7 +5,7 @@ import time
 
 import c06
 from common import Rule, finish
-from mirutil import Body, op_local
+from mirutil import Body, inline_calls, op_local
 from mono import Mono
 
 PERSIST = r"^tempfile::file::NamedTempFile::<F>::persist(_noclobber)?$"
@@ -110,8 +110,8 @@ def in_place_rules(facts, b, anchor, w1, w2, w3, w6):
     if not pathnew:
         # the path may be used directly without Path::new: fall back to the argument of load_file
         for c in loads:
-            for l in b.arg_locals(c):
-                S |= b.derived_from([l])
+            # the path that is read: everything that is a copy/borrow of the same local as the argument of load_file
+            S |= b.derived_from(b.ref_roots(b.arg_locals(c)))
     for t in temps:
         callee = Body.callee(b.bbs[t]["t"])
         in_dir = callee.endswith(("tempfile_in", "make_in"))
@@ -166,13 +166,21 @@ def not_repl(body):
 
 
 def in_place_bodies(facts):
-    """The driver functions that rename a temporary file over something: found by what they do (a call of
-    NamedTempFile::persist), not by name, so that extracting the per-file work into a helper keeps the anchor."""
-    out = []
+    """The driver function that performs the in-place replacement, found by what it does, not by name: a function of
+    the command-line crate that -- with its private helpers inlined -- creates a temporary file, runs the filter and
+    renames the temporary file (NamedTempFile::persist). Extracting the per-file work or the replacement step into
+    helper functions therefore keeps the anchor. The smallest such function is analysed (with helpers inlined)."""
+    cands = []
+    keep = lambda d: re.search(RUN, d) is None and re.search(WRITE, d) is None
     for crate, body in facts.all_mir():
-        if crate == "jaq" and not body.get("test") and not_repl(body) and Body(body).find_calls(PERSIST):
-            out.append(body)
-    return out
+        if crate != "jaq" or body.get("test") or not not_repl(body) or "{closure" in body["def"]:
+            continue
+        m = inline_calls(facts, body, ["jaq"], depth=3, only=keep)
+        b = Body(m)
+        if b.find_calls(PERSIST) and b.find_calls(TEMPFILE_IN) and b.find_calls(RUN):
+            cands.append((len(m["bbs"]), m))
+    cands.sort(key=lambda x: x[0])
+    return [cands[0][1]] if cands else []
 
 
 def run(facts, tier):
